@@ -14,7 +14,8 @@ EXPLANATION = ('Every construct through which the interpreter\'s own code can pa
 ASSUMPTIONS = ['termination and stack exhaustion (recursion on AST depth) are not decided', 'allocation failure, panics inside host closures and inside dependencies beyond the deny-list are outside the claim',
                'an infeasible new edge would be reported (accepted: it is the only sound direction for "never panics"); matching is move-tolerant and keys carry no positions']
 
-FILES = re.compile(r'^interpreter/src/(objects|functions|magic|resolvers|duration|context|lib|macros)\.rs')
+# every source file of the interpreter crate (also ones added later) except the two audited by their own checks: ser.rs (C17 R3), json.rs (C18 R3)
+FILES = re.compile(r'^interpreter/src/(?!(ser|json)\.rs)')
 
 
 def scope(fx):
